@@ -20,6 +20,8 @@ type Opts struct {
 	ObjRefs      bool
 	ClassExprs   bool
 	Switch       bool
+	BlankLines   bool // indented blank lines inside blocks
+	FailSites    bool // sites that can fail at run time: fe1/fe2 expressions, helpers given unsupported values
 	MarkerHeavy  bool // whitespace markers on most elements
 	RenderHeavy  bool // favour @render / @children
 	EmptyBlocks  bool // allow a block that contains only `-#` comments
@@ -51,7 +53,7 @@ func (g *G) fmtFrag() string { return g.pick("s0", "s1", `"lit"`, `f2("é", s0)`
 func (g *G) boolFrag() string { return g.pick("b0", "b1", "!b0", "!b1", "b0 && b1", "n0 > 1") }
 
 func (g *G) staticText() string {
-	base := []string{"hello", "a b", "x <em>y</em> z", "tail", "1 & 2", "it's", "a.b", "50% off", "q?", "(p)"}
+	base := []string{"hello", "a b", "x <em>y</em> z", "tail", "1 & 2", "it's", "a.b", "50% off", "q?", "(p)", "C#", "no. #", "a ##", "#1 x"}
 	if g.O.NonASCII {
 		base = append(base, "ünï", "日本", "a😀b")
 	}
@@ -87,7 +89,8 @@ func (g *G) textParts() []Part {
 		case 5:
 			ps = append(ps, Part{EscHash: true, Static: "no"})
 		}
-		if i < n-1 {
+		if i < n-1 && !(g.chance(4) && strings.HasSuffix(ps[len(ps)-1].Static, "#")) {
+			// (sometimes a literal '#' sits directly before an interpolation: `no. ##{n}`)
 			ps = append(ps, Part{Static: " "})
 		}
 	}
@@ -218,6 +221,20 @@ func (g *G) Block(depth int) []*Node {
 	n := 1 + g.R.Intn(3)
 	for i := 0; i < n; i++ {
 		k := g.R.Intn(16)
+		if g.O.FailSites && g.R.Intn(4) == 0 {
+			switch g.R.Intn(4) {
+			case 0:
+				out = append(out, &Node{Kind: KScript, Expr: g.pick("fe1(s0)", "fe2(s1)"), Unescaped: true})
+			case 1:
+				out = append(out, &Node{Kind: KElem, Tag: "b", ClassExprs: []string{"s0", "n0"}, Inline: &Node{Kind: KText, Parts: []Part{{Static: "bad class arg"}}}})
+			case 2:
+				out = append(out, &Node{Kind: KElem, Tag: "i", AttrsCmd: "s0", Inline: &Node{Kind: KText, Parts: []Part{{Static: "bad attrs arg"}}}})
+			case 3:
+				n := &Node{Kind: KText, Unescaped: true, Parts: []Part{{Static: "t "}, {Expr: "fe1(s1)"}}}
+				out = append(out, n)
+			}
+			continue
+		}
 		if g.O.RenderHeavy && g.R.Intn(3) == 0 {
 			k = []int{9, 9, 11, 1}[g.R.Intn(4)]
 		}
@@ -341,9 +358,21 @@ func (g *G) Block(depth int) []*Node {
 			out = append(out, &Node{Kind: KRubyComment, Code: g.pick("note", "todo: x")})
 		}
 	}
+	if g.O.BlankLines && g.chance(3) {
+		// an indented but otherwise empty line, at the start or in the middle of the block
+		at := 0
+		if g.chance(2) {
+			at = g.R.Intn(len(out) + 1)
+		}
+		// never between a control block and its else branch / closing `- }`
+		// … and not directly after a `-#` comment, whose ignored region swallows following blank lines
+		if at == 0 || (out[at-1].Kind != KIf && out[at-1].Kind != KFor && out[at-1].Kind != KRubyComment) {
+			out = append(out[:at], append([]*Node{{Kind: KBlank}}, out[at:]...)...)
+		}
+	}
 	onlyComments := true
 	for _, n := range out {
-		if n.Kind != KRubyComment {
+		if n.Kind != KRubyComment && n.Kind != KBlank {
 			onlyComments = false
 		}
 	}
